@@ -67,7 +67,7 @@ brk("c02-delete-wrong-renderer", ["C02"], "src/query/delete.rs",
     """    pub fn build_collect_into<T: QueryBuilder>(&self, query_builder: T, sql: &mut dyn SqlWriter) {
         query_builder.prepare_delete_statement(self, sql);""",
     """    pub fn build_collect_into<T: QueryBuilder>(&self, query_builder: T, sql: &mut dyn SqlWriter) {
-        crate::backend::query_builder::CommonSqlQueryBuilder.prepare_delete_statement(self, sql); let _ = query_builder;""", "C02.R3:DeleteStatement:build_collect_into")
+        crate::backend::CommonSqlQueryBuilder.prepare_delete_statement(self, sql); let _ = query_builder;""", "C02.R3:DeleteStatement:build_collect_into")
 
 # ---- C10 -------------------------------------------------------------------------------------------------------
 brk("c10-lt-instead-of-ne", ["C10"], "src/query/insert.rs",
